@@ -741,14 +741,14 @@ registry.register("C05", {
              "encoding length, all eight STREAM types x id/offset/length limits, dc token counts 0,1,2,4092,4093 +-1 byte, every prefix of 150 (quick) / 1500 (thorough) two-frame payloads. "
              "packets: grammar-generated datagrams of 1-3 coalesced packets of all six kinds, mutations, random bytes; fixed: every first byte x versions {0,1,unknown} x lengths, "
              "short-header dcid lengths 0..22, connection id lengths {0,1,19,20,21,255} in every long type, Length field at/below/above the bytes present in every encoding length, "
-             "Retry token/tag boundary 0..19 bytes, every prefix of sample datagrams. tparams (grammar only): blocks of 0-5 parameters with unknown ids >= 2^30 (greased ids among them), whole / every prefix / last length overrunning; tparams_total: blocks with known ids and random values, mutations, random bytes - judged for totality only. pn: deltas at 2^7, 2^15, 2^23, 2^31 +-1 from the largest acknowledged. "
+             "Retry token/tag boundary 0..19 bytes, every prefix of sample datagrams. pnx (RFC 9000 A.3): direct decode of every window size with truncated values and largest-received at 0/1/2, half window +-2, window +-2, twice the window +-1 away from 0 and from 2^62-1, and encoder->bytes->decoder->expand with the receiver anywhere in and just outside the window; random cases clustered at 0, 2^62-1 and random bases. fit (Stream::try_fit / Crypto::try_fit): stream id and offset at every varint size, payload lengths 0..2, 62..66, 16382..16386, 2^30-2..2^30+2, capacities 0..header+3 and within +-3 of header+payload, header+prefix+payload for each prefix size, and of each varint boundary of the remaining capacity; frames up to 100000 bytes are really encoded. varint also: encode_updated(placeholder, replacement) over all boundary pairs. tparams (grammar only): blocks of 0-5 parameters with unknown ids >= 2^30 (greased ids among them), whole / every prefix / last length overrunning; tparams_total: blocks with known ids and random values, mutations, random bytes - judged for totality only. pn: deltas at 2^7, 2^15, 2^23, 2^31 +-1 from the largest acknowledged. "
              "A varint case is non-trivial when it carries a byte or a value; a frames/packets case when at least the first frame/packet decodes; a pn case when a truncation exists"),
     "assumptions": [
         "totality of the *Rust* decoders (no panic / out-of-bounds / endless loop) is established on the inputs tried (each call under catch_unwind with a step budget, overflow checks and debug assertions on) plus the proved totality of the reference model; agreement with the reference is likewise per input",
         "little-endian host for the model of varint/table.rs (u64::to_be = byte swap); the harness runs on the same host",
         "frame-level validation is that of RFC 9000 section 19 proper; the stream/crypto 'offset + length <= 2^62-1' rule (19.6/19.8, FRAME_ENCODING_ERROR *or* FLOW_CONTROL_ERROR) is enforced by the receive buffers (stream/receive_stream.rs, space/crypto_stream.rs), not by the frame decoder, and is outside this check",
         "an Initial packet's connection IDs are parsed up to 255 bytes (17.2 SHOULD, for Version Negotiation); the 20-byte limit of version 1 is applied by the endpoint after the version check, outside the codec",
-        "header protection, packet number expansion and AEAD are C06/C08; the meaning and validation of individual transport parameters is C14 - here only the block grammar (unknown ids) is compared, and arbitrary blocks are run for totality",
+        "header protection and AEAD are C06; the choice of the truncated packet number length is C08 (here: wire bytes and RFC A.3 reconstruction); the meaning and validation of individual transport parameters is C14 - here only the block grammar (unknown ids) is compared, and arbitrary blocks are run for totality",
     ],
     "trusted_base": ["no axioms: Print Assumptions reports 'Closed under the global context' for every C05 theorem"],
     "explanation": "Coq reference codecs written from RFC 9000 sections 16-19 (varints, all frames, packet headers, truncated packet number bytes) with round-trip / announced-size / progress / totality theorems; the real decoders and encoders must give exactly the reference's answer on every generated input (judge = equality with the reference's canonical rendering, including bytes consumed, encoding_size() vs bytes written, re-encoded bytes and re-decode), and the varint table rows are read from the source and proved equal to the RFC table",
